@@ -73,8 +73,8 @@ func body(r *vf.Run) {
 }
 
 func top(r *vf.Run) {
-	nSeq := r.N(300, 6000)
-	nConc := r.N(90, 900)
+	nSeq := r.N(300, 5000)
+	nConc := r.N(90, 800)
 	// The cases are bound by the latency of bbolt's fdatasync (two per store update),
 	// not by CPU: several children run side by side, each on its own range of cases.
 	t := time.Now()
@@ -151,15 +151,18 @@ func runBatches(r *vf.Run, stage string, from, n, batch int, race bool) {
 			}
 			return
 		}
-		class, site, head := crashSignature(ex.Output)
+		class, site, head, stack := crashSignature(ex.Output)
 		desc := caseDescriptor(r, stage, open)
 		if class == "" {
 			r.Inconclusive(fmt.Sprintf("child stage %s died in case %d without a recognisable crash report (exit %d %s)", stage, open, ex.ExitCode, ex.Signal))
 		} else {
 			r.Violate("panic:"+class+"@"+site,
 				"the manager process crashed ("+head+") while executing "+stage+" case "+strconv.Itoa(open),
-				map[string]any{"stage": stage, "case": open, "history": desc, "crash": head, "note": "process-fatal: the panic was raised in a goroutine of the code under test (gRPC handler)", "output_tail": tail(ex.Tail, 1500)})
+				map[string]any{"stage": stage, "case": open, "history": desc, "crash": head, "note": "process-fatal: the panic was raised in a goroutine of the code under test (gRPC handler)", "crashing_goroutine": stack})
 			r.Distinct("process_crash_sites", class+"@"+site)
+			if crashes == 1 {
+				r.Sample(map[string]any{"stage": stage, "case": open, "history": desc, "process_crash": head, "crashing_goroutine": stack})
+			}
 		}
 		lo = open + 1
 		if crashes > 400 {
@@ -167,13 +170,6 @@ func runBatches(r *vf.Run, stage string, from, n, batch int, race bool) {
 			return
 		}
 	}
-}
-
-func tail(s string, n int) string {
-	if len(s) > n {
-		return s[len(s)-n:]
-	}
-	return s
 }
 
 func caseDescriptor(r *vf.Run, stage string, idx int) string {
@@ -208,10 +204,10 @@ func readJournal(path string) (open, lastEnd int, err error) {
 
 // crashSignature extracts "panic: ..." / "fatal error: ..." and the innermost
 // stargz-snapshotter frame of the crashing goroutine from a dead child's output.
-func crashSignature(outPath string) (class, site, head string) {
+func crashSignature(outPath string) (class, site, head, stack string) {
 	b, err := os.ReadFile(outPath)
 	if err != nil {
-		return "", "", ""
+		return "", "", "", ""
 	}
 	s := string(b)
 	j := strings.Index(s, "\npanic: ")
@@ -226,7 +222,7 @@ func crashSignature(outPath string) (class, site, head string) {
 		j = k
 	}
 	if j < 0 {
-		return "", "", ""
+		return "", "", "", ""
 	}
 	rest := strings.TrimLeft(s[j:], "\n")
 	head = rest
@@ -236,7 +232,7 @@ func crashSignature(outPath string) (class, site, head string) {
 	// the crashing goroutine is the first one printed
 	g := strings.Index(rest, "\ngoroutine ")
 	if g < 0 {
-		return panicClass(head), "unknown", head
+		return panicClass(head), "unknown", head, ""
 	}
 	blk := rest[g+1:]
 	if e := strings.Index(blk, "\n\n"); e >= 0 {
@@ -244,7 +240,14 @@ func crashSignature(outPath string) (class, site, head string) {
 	}
 	// include the "[signal SIGSEGV" line in the class decision
 	cls := panicClass(rest[:g])
-	return cls, innermostRepoFrame(blk), head
+	return cls, innermostRepoFrame(blk), head, tail2(rest[:g]+"\n"+blk, 2500)
+}
+
+func tail2(s string, n int) string {
+	if len(s) > n {
+		return s[:n] + "…"
+	}
+	return s
 }
 
 // child runs cases [lo,hi) of its stage.
